@@ -494,9 +494,9 @@ def outSize (cfg : PwlFnCfg) (n : Nat) : Int :=
 theorem outputParamSize_eq (cfg : PwlFnCfg) (inLast : Option Nat) :
     outputParamSize cfg inLast = outSize cfg (numKeypoints inLast) := rfl
 
-/-- what `_verify_pwl_calibration` guarantees (`n` keypoints, `outLen` output parameters per unit), with
-the input range non-degenerate (`keypoint_input_min == keypoint_input_max` is accepted by the code and
-divides by zero: finding F-C15-d) -/
+/-- what `_verify_pwl_calibration` guarantees (`n` keypoints, `outLen` output parameters per unit):
+exactly the facts `verify_ok_valid` derives from `verifyPwlFn … = .ok ()`, including the non-degenerate
+input range (a zero range is rejected since ff5f96e, fixed finding F-C15-d) -/
 structure ValidPwl (cfg : PwlFnCfg) (n outLen : Nat) : Prop where
   inRange : cfg.inMin < cfg.inMax
   outRange : cfg.outMin ≤ cfg.outMax
@@ -507,11 +507,11 @@ structure ValidPwl (cfg : PwlFnCfg) (n outLen : Nat) : Prop where
   size : (outLen : Int) = outSize cfg n
 
 theorem verify_ok_valid (cfg : PwlFnCfg) (inLast : Option Nat) (r3 : Bool) (rows outLast cols : Nat)
-    (h : verifyPwlFn cfg inLast r3 rows outLast cols = .ok ()) (hne : cfg.inMin ≠ cfg.inMax) :
+    (h : verifyPwlFn cfg inLast r3 rows outLast cols = .ok ()) :
     ValidPwl cfg (numKeypoints inLast) outLast := by
   unfold verifyPwlFn at h
   split_ifs at h with h1 h2 h3 h4 h5 h6 h7 h8 h9 h10
-  refine ⟨lt_of_le_of_ne (not_lt.mp h1) hne, not_lt.mp h3, ?_, ?_, ?_, ?_, ?_⟩
+  refine ⟨not_le.mp h1, not_lt.mp h3, ?_, ?_, ?_, ?_, ?_⟩
   · intro hi
     simp only [hi, Bool.not_false, Bool.true_and, Bool.or_eq_true, not_or] at h2
     exact ⟨by simpa using h2.1, by simpa using h2.2⟩
@@ -1246,6 +1246,65 @@ theorem getR_set (x : List ℚ) (d : Nat) (v : ℚ) (i : Nat) :
     · simp [h2]
   · have : ¬ i = d := fun e => h e.symm
     simp [h, this]
+
+
+
+/-! ### unfolding the `Except` wrappers of `CDF.call` / `cdf_fn` -/
+
+theorem layerCall_ok {a : Activation} {σ : ℚ → ℚ} {red : Reduction} {f U : Nat} {scale : List ℚ}
+    {kernel : List (List (List ℚ))} {K W : Nat} {x : List ℚ} {out : List (List ℚ)}
+    (h : layerCall a σ red f U scale kernel K W x = .ok out) :
+    verifyCdf f x.length U K W kernel.length = .ok () ∧ 1 ≤ U ∧
+      out = reduceStage red f x.length U (layerCdfs a σ scale kernel K W x) := by
+  unfold layerCall at h
+  by_cases hc : K = 0 ∨ U = 0
+  · simp [hc, bind, Except.bind] at h
+  · cases hver : verifyCdf f x.length U K W kernel.length with
+    | error e => simp [hc, hver, bind, Except.bind, pure, Except.pure] at h
+    | ok _ =>
+      simp only [hc, if_false, hver, bind, Except.bind, pure, Except.pure, Except.ok.injEq] at h
+      exact ⟨rfl, by omega, h.symm⟩
+
+theorem cdfFn_ok {a : Activation} {σ : ℚ → ℚ} {red : Reduction} {f U : Nat}
+    {scaling : Option (List (List (List ℚ)))} {loc : List (List (List ℚ))} {K W : Nat} {x : List ℚ}
+    {out : List (List ℚ)} (h : cdfFn a σ red f U scaling loc K W x = .ok out) :
+    verifyCdf f x.length U K W loc.length = .ok () ∧
+      out = reduceStage red f x.length U (fnCdfs a σ scaling loc K W x) := by
+  unfold cdfFn at h
+  cases hver : verifyCdf f x.length U K W loc.length with
+  | error e => simp [hver, bind, Except.bind] at h
+  | ok _ =>
+    simp only [hver, bind, Except.bind, pure, Except.pure, Except.ok.injEq] at h
+    exact ⟨rfl, h.symm⟩
+
+/-- without keypoints every path of the verification ends in a `ValueError` (non-zero factor) -/
+theorem verifyCdf_no_keypoints (f I U W locI : Nat) (hf : f ≠ 0) :
+    verifyCdf f I U 0 W locI = .error .valueError := by
+  unfold verifyCdf
+  split_ifs <;> simp_all
+
+/-- for at least one unit and a non-zero factor the layer's extra constructor check adds nothing -/
+theorem layerCall_eq (a : Activation) (σ : ℚ → ℚ) (red : Reduction) (f U : Nat) (scale : List ℚ)
+    (kernel : List (List (List ℚ))) (K W : Nat) (x : List ℚ) (hU : 1 ≤ U) (hf : 1 ≤ f) :
+    layerCall a σ red f U scale kernel K W x
+      = (do verifyCdf f x.length U K W kernel.length
+            pure (reduceStage red f x.length U (layerCdfs a σ scale kernel K W x))) := by
+  unfold layerCall
+  by_cases hK : K = 0
+  · subst hK
+    rw [verifyCdf_no_keypoints _ _ _ _ _ (by omega)]
+    simp [bind, Except.bind]
+  · have : ¬ (K = 0 ∨ U = 0) := by omega
+    simp [this]
+
+theorem mem_tileUnits {α : Type} (units : Nat) (rows : List α) (a : α) (h : a ∈ tileUnits units rows) :
+    a ∈ rows := by
+  unfold tileUnits at h
+  split at h
+  · split_ifs at h
+    · rw [List.mem_replicate] at h; simp [h.2]
+    · exact h
+  · exact h
 
 
 end Tfl.Alt
